@@ -45,6 +45,29 @@ Definition subscription_types (subs : list etype) : list etype := sub_types_from
 Definition deliveries (subs : list etype) (t : etype) : Z :=
   Z.of_nat (List.length (filter (fun T => subtype_b t T) (subscription_types subs))).
 
+(* ---- the DOCUMENTED hierarchy is the name tree of docs/events.rst / class
+   EventTypes: EVENT is above everything, and NAME is above NAME_SUFFIX
+   (PROCESS_STATE above PROCESS_STATE_RUNNING, TICK above TICK_5 ...).  This
+   prefix rule is the committed reference; that the class tree of
+   supervisor/events.py (C09's generated table) realises exactly this name
+   tree is a proof obligation (class_tree_matches_names in Proofs.v), so a
+   class moved under another class breaks the proof. *)
+Definition name_super (a b : string) : bool :=
+  String.eqb a "EVENT" || String.eqb a b || prefix (a ++ "_") b.
+
+(* what the documentation promises a pool listing `names`: one notification of
+   type n is received exactly once iff n or a type above it is listed *)
+Definition doc_deliveries (names : list string) (n : string) : Z :=
+  if existsb (fun l => name_super l n) names then 1%Z else 0%Z.
+
+Definition listed_names (events_value : string) : list string :=
+  dedup (map upper (conv_list_of_strings (GStr events_value))).
+
+(* correspondence on the documented tree: events= text, and for every EventTypes
+   name how often one notification of that type reached the real pool *)
+Definition check_subscription_names (x : string * list (string * Z)) : bool :=
+  forallb (fun nc => Z.eqb (doc_deliveries (listed_names (fst x)) (fst nc)) (snd nc)) (snd x).
+
 (* correspondence: the events= text of the section, and how often one
    notification of each class reached the real pool's buffer *)
 Definition check_subscription (x : string * list (etype * Z)) : bool :=
